@@ -6,7 +6,7 @@ VARIANTS = ["Server", "Client", "Server-optional", "AppStream"]
 NAMES = ["bash", "kernel", "python3-requests", "lib-2to3", "gcc-c++", "a", "java-1.8.0-openjdk", "x-1", "9base"]
 VERSIONS = ["1", "4.3.30", "2.7.18~rc1", "1.0^git20200101", "5.14.0", "1_2+b"]
 RELEASES = ["1", "2.el7", "1.fc20", "0.1.rc9.el7cp", "3.el8_4"]
-BIN_ARCHES = ["x86_64", "noarch", "i686", "aarch64"]
+BIN_ARCHES = ["x86_64", "noarch", "i686", "aarch64", "armhfp", "ppc64le", "s390x", "armv7hl"]
 SIGKEYS = [None, "246110c1", "FD431D51", "aBcD1234"]
 
 
